@@ -249,6 +249,22 @@ def emit() -> dict[str, str]:
     dfn, cfn = _func(tree, "decompress"), _func(tree, "compress")
     pshape = _parse_shape(_func(tree, "parse_encoding_list"))
 
+    # how the library objects are constructed: the reader / decompress-object contracts of Spec/C18.lean are assumed of the
+    # *default* zstd decompressor (accepts every window a compressor level can declare) and of a gzip-wrapped 32 KiB inflater
+    zd_calls, zo_calls = [], []
+    for n in ast.walk(tree):
+        if isinstance(n, ast.Call):
+            f = ast.unparse(n.func)
+            if f == "zstandard.ZstdDecompressor":
+                zd_calls.append(", ".join([ast.unparse(a) for a in n.args] + [f"{k.arg}={ast.unparse(k.value)}" for k in n.keywords]))
+            elif f == "zlib.decompressobj":
+                zo_calls.append(", ".join([ast.unparse(a) for a in n.args] + [f"{k.arg}={ast.unparse(k.value)}" for k in n.keywords]))
+    if not zd_calls or not zo_calls:
+        raise Shape("no ZstdDecompressor / decompressobj construction found")
+
+    def _ls(x: str) -> str:
+        return '"' + x.replace("\\", "\\\\").replace('"', '\\"') + '"'
+
     mem = ", ".join(f'("{n}", {lean_str(v)})' for n, v in members)
     body = f"""namespace VgiVerif.Gen.Codec
 
@@ -282,6 +298,10 @@ def gzipEofUncapped : Bool := {_b(eof_unc)}
 def gzipEofCapped : Bool := {_b(eof_cap)}
 /-- the bounded gzip loop leaves with `if do.eof: break` (after the chunk was accounted) -/
 def gzipBreaksOnEof : Bool := {_b(_breaks_on_eof(gfn))}
+
+/-- argument lists of every `zstandard.ZstdDecompressor(…)` / `zlib.decompressobj(…)` construction in `_codec.py` -/
+def zstdDecompressorCalls : List String := [{", ".join(_ls(c) for c in zd_calls)}]
+def gzipDecompressobjCalls : List String := [{", ".join(_ls(c) for c in zo_calls)}]
 
 /-- `decompress` / `compress` begin with `if encoding is Encoding.IDENTITY: return data` -/
 def identityFirstDecompress : Bool := {_b(_identity_first(dfn))}
